@@ -205,6 +205,7 @@ type Unit struct {
 	lastSortPi, lastSortInv string
 	elemWrite  int
 	fieldWrite int // >=0 while assigning v.f = x on a struct variable: index of f
+	heldAtEntry []string
 	captured   map[string]bool // symbols standing for captured (outer) variables
 	capturedInit map[*types.Var]*Term
 }
